@@ -1,4 +1,4 @@
-//go:build all || c19
+//go:build c19
 
 package harness
 
